@@ -27,6 +27,7 @@ type Config struct {
 	Stubs      map[string]string // extra function stubs: full name -> kind ("noop", "poison")
 	ExtraAssume string
 	NoIfConv     bool
+	NoWrapQuery  bool
 	SampleModels int                  // number of completed-path input models to record
 	Exclude      map[string][]Exclusion // obligation id (or prefix ending in *) -> known input classes
 }
@@ -77,6 +78,8 @@ type Result struct {
 	Aborted      string              `json:"aborted,omitempty"`
 	ApproxPaths  int                 `json:"approx_paths"`
 	IfConverted  int                 `json:"if_converted"`
+	WrapQueries  int                 `json:"wrap_queries"`
+	WrapElided   int                 `json:"wrap_elided"`
 	Samples      []map[string]interface{} `json:"samples,omitempty"`
 	PathModels   []map[string]string `json:"path_models,omitempty"`
 }
@@ -196,6 +199,7 @@ type Interp struct {
 	strIDs map[string]int64
 	aborted bool
 	entryDepth int
+	wrapKnown map[wrapKey]bool
 	pdoms map[*ssa.Function]*pdomInfo
 	noConv map[*ssa.If]int
 }
@@ -208,6 +212,7 @@ func NewInterp(prog *ssa.Program, sol *Solver, cfg Config) *Interp {
 		built: map[*ssa.Package]bool{}, strIDs: map[string]int64{}, pdoms: map[*ssa.Function]*pdomInfo{}, noConv: map[*ssa.If]int{}}
 }
 
+type wrapKey struct{ id, pc int }
 type pathEnd struct{ why string }
 type forkReq struct {
 	term  *Term
@@ -357,6 +362,9 @@ func (in *Interp) checkBudget() {
 
 // run executes st until its path ends, forking recursively.
 func (in *Interp) run(st *State) {
+	if in.aborted {
+		return
+	}
 	for {
 		cont := in.runSegment(st)
 		if cont == nil {
@@ -444,7 +452,7 @@ func (in *Interp) runSegment(st *State) (alts []alternative) {
 			in.noteUnsupported("step budget exceeded", st)
 			panic(pathEnd{"cut"})
 		}
-		if st.Steps&1023 == 0 {
+		if in.Res.Steps&255 == 0 {
 			in.checkBudget()
 		}
 		fr := st.top()
